@@ -233,7 +233,7 @@ class Ctx:
         if p.returncode != 0:
             err = p.stderr[-8000:]
             # a crash inside forwarder code is a verdict (C08, C12); anything else is infrastructure
-            if ("panic:" in err or "fatal error:" in err) and re.search(r"github.com/saucelabs/forwarder/(?!internal/zzverif)", err):
+            if ("panic:" in err or "fatal error:" in err) and re.search(r"github\.com/saucelabs/forwarder(?:\.|/(?!internal/zzverif))", err):
                 res.append({"crash": True, "stderr": err})
             else:
                 sys.stderr.write(err)
